@@ -64,10 +64,7 @@ theorem stop_buf (r : Recver) : r.stop.1.buf = r.buf := by
   unfold Recver.stop; (repeat' split) <;> rfl
 theorem rxReset_buf (r : Recver) (v : Nat) : (r.rxReset v).1.buf = r.buf := by
   unfold Recver.rxReset
-  split
-  · rfl
-  · dsimp only
-    (repeat' split) <;> rfl
+  (repeat' split) <;> rfl
 theorem connError_buf (r : Recver) : r.connError.buf = r.buf := by
   unfold Recver.connError; (repeat' split) <;> rfl
 
